@@ -217,11 +217,11 @@ impl ArrayValue {
     fn slice(&mut self, left: Option<usize>, right: Option<usize>) {
         if let Some(items) = self.items.as_mut() {
             if let Some(left) = left {
-                items.drain(..left);
+                items.drain(..left.min(items.len()));
             }
 
             if let Some(right) = right {
-                let remove_range = right - left.unwrap_or_default()..;
+                let remove_range = right.saturating_sub(left.unwrap_or_default())..;
                 if remove_range.start < items.len() {
                     items.drain(remove_range);
                 };
@@ -305,11 +305,13 @@ impl PointerValue {
 
         self.value.and_then(|ptr| {
             let left = left.unwrap_or_default();
-            let base_addr = ptr as usize + deref_size * left;
+            // a reversed or absurdly large range selects nothing
+            let len = right.checked_sub(left)?;
+            let base_addr = (ptr as usize).checked_add(deref_size.checked_mul(left)?)?;
             let raw_data = weak_error!(debugger::read_memory_by_pid(
                 pcx.evcx.ecx.pid_on_focus(),
                 base_addr,
-                deref_size * (right - left)
+                deref_size.checked_mul(len)?
             ))?;
             let raw_data = bytes::Bytes::from(raw_data);
 
